@@ -307,7 +307,7 @@ def run_cases(ctx, exe, cases, cnt, var, cov, dist, distinct, nested=False):
     if not nested:
         ctx.log("%d source trees and jails built" % len(cases))
     env = dict(os.environ, ASAN_OPTIONS="detect_leaks=0")
-    impl = run_batch([exe], ops, timeout=1800, env=env)
+    impl = pcp.par_batch([exe], ops, timeout=1800, env=env)
 
     def rerun(idx):
         for k in idx:
@@ -323,7 +323,7 @@ def run_cases(ctx, exe, cases, cnt, var, cov, dist, distinct, nested=False):
         dist["timeouts_retried"] = dist.get("timeouts_retried", 0) + nre
     if not nested:
         ctx.log("real client/server round trips done")
-    mans = ctx.model("pcp", "".join(l + "\n" for l in mlines), timeout=1800)
+    mans = pcp.par_model(ctx, "pcp", mlines, timeout=1800)
     if not nested:
         ctx.log("model round trips done")
     # specification on the real destination
@@ -349,7 +349,7 @@ def run_cases(ctx, exe, cases, cnt, var, cov, dist, distinct, nested=False):
         slines.append("spec11 %d %s %d %s %s" % (c["p"], hx(dcanon), len(ft), " ".join(ft), " ".join(stoks)))
     if not nested:
         ctx.log("snapshots taken")
-    sans = ctx.model("pcp", "".join(l + "\n" for l in slines), timeout=1800)
+    sans = pcp.par_model(ctx, "pcp", slines, timeout=1800)
     if not nested:
         ctx.log("specification evaluated")
     errcases = []
@@ -491,7 +491,7 @@ def run_cases(ctx, exe, cases, cnt, var, cov, dist, distinct, nested=False):
             c["p"], c["y"], c["um"], cnt, var["rule"], var["dch"], c.get("fsz", 0), hx(CWD), hx(c["dest"]),
             int(c["reverse"]), hx(c["host"]), var["ssec"], var["sfix"], var.get("skipref", 0), len(ents_l[i]),
             " ".join(e.token() for e in ents_l[i]), " ".join(c["stoks"])) for i, c, cj, f, replies, m in errcases]
-        for (i, c, cj, f, replies, m), sl in zip(errcases, ctx.model("pcp", "".join(l + "\n" for l in slines))):
+        for (i, c, cj, f, replies, m), sl in zip(errcases, pcp.par_model(ctx, "pcp", slines)):
             ms = pcp.parse_model(sl)
             dist["sessions_checked"] = dist.get("sessions_checked", 0) + 1
             if ms["c2s"] != f["c2s"]:
@@ -509,7 +509,7 @@ def run_cases(ctx, exe, cases, cnt, var, cov, dist, distinct, nested=False):
             diffs = pcp.compare_fs(ms["fs"], snaps[i], t0)
             if diffs:
                 ctx.disagreement("pcp session file system", "; ".join(diffs[:4]), cj)
-        for (i, c, cj, f, replies, m), ml in zip(errcases, ctx.model("pcp", "".join(l + "\n" for l in lines))):
+        for (i, c, cj, f, replies, m), ml in zip(errcases, pcp.par_model(ctx, "pcp", lines)):
             dist["error_paths_checked"] = dist.get("error_paths_checked", 0) + 1
             mm = pcp.parse_model(ml)
             if mm["replies"] != replies:
@@ -1275,7 +1275,7 @@ def run_multi(ctx, exe, cases, cnt, var, cov, dist):
                 index0.append((c, i))
     t0 = int(time.time())
     env = dict(os.environ, ASAN_OPTIONS="detect_leaks=0")
-    impl = run_batch([exe], ops, timeout=1800, env=env)
+    impl = pcp.par_batch([exe], ops, timeout=1800, env=env)
 
     def rerun(idx):
         for k in idx:
@@ -1290,7 +1290,7 @@ def run_multi(ctx, exe, cases, cnt, var, cov, dist):
                              lambda a: f_of(a).get("sig") == "997", rerun)
     if nre:
         dist["timeouts_retried"] = dist.get("timeouts_retried", 0) + nre
-    mans = ctx.model("pcp", "".join(l + "\n" for l in mlines + mlines0), timeout=1800)
+    mans = pcp.par_model(ctx, "pcp", mlines + mlines0, timeout=1800)
     res, res0 = {}, {}
     for (c, i), (ans, crash), ml in zip(index, impl, mans):
         res.setdefault(c["k"], {})[i] = (pcp.fields(ans[0]) if ans else {}, crash, pcp.parse_model(ml))
